@@ -11,7 +11,7 @@ import time
 import z3
 
 from vlib import env
-from vlib.zrun import explore_and_prove, eq_term, concretize, pyrepr
+from vlib.zrun import wrapper_exc, explore_and_prove, eq_term, concretize, pyrepr
 from vlib.zsym import Real, SymNum, SymTypeError, lift, model_value
 
 META = {
@@ -114,7 +114,7 @@ def task_shape(r, p, c):
     for pth, m, g in o.failed[:1]:
         cc = [concretize(m, d) for d in comps]
         xv = concretize(m, xs)
-        res["violations"].append(dict(key="precheck:%s" % pth.kind, soft=isinstance(pth.value, SymTypeError),
+        res["violations"].append(dict(key="precheck:%s" % pth.kind, soft=wrapper_exc(pth.value),
                                       desc="compositions %s (first %d are reactants): %r although x=%s balances" % (cc, r, pth.value, xv),
                                       replay_src=REPLAY % dict(comps=pyrepr(cc), nr=r, xs=pyrepr(xv))))
     res["status"] = "violation" if res["violations"] else ("inconclusive" if res["inconclusive"] else "discharged")
